@@ -47,7 +47,7 @@ def prog_str(progs):
 
 
 def scenario(C, E, progs, choose, transport='plain', capw=300, capr=50, fine=False, listener=None, fail_prefix=None,
-             shutdown_fails=False):
+             shutdown_fails=False, stall_w=0):
     """run one scenario to completion; returns dict(log, ran, wire bytes, …)"""
     from minecraft.networking.packets import serverbound
     rng_dummy = None
@@ -95,6 +95,7 @@ def scenario(C, E, progs, choose, transport='plain', capw=300, capr=50, fine=Fal
         isock = SC.ISock(S)
         isock.fail_prefix = fail_prefix
         isock.shutdown_fails = shutdown_fails
+        isock.stall_w = stall_w
         # the transport is set up by the library's own _connect() (queue creation included) against a
         # stand-in for the socket module whose socket() is the instrumented one
         import socket as real_socket
@@ -145,6 +146,7 @@ def scenario(C, E, progs, choose, transport='plain', capw=300, capr=50, fine=Fal
         conn.networking_thread = nt
         S.add(0)
         caller_errors = []
+        dmarks = []          # [tid, immediate, log length at the call, log length at the return] of every disconnect() call
 
         def user(tid, ops):
             def body():
@@ -179,10 +181,13 @@ def scenario(C, E, progs, choose, transport='plain', capw=300, capr=50, fine=Fal
                         S.before('ddone')
                         S.emit('ddone')
                     elif kind == 'd':
+                        mark = [tid, bool(arg), len(S.log), None]
+                        dmarks.append(mark)
                         try:
                             conn.disconnect(immediate=bool(arg))
                         except Exception as e:
                             caller_errors.append((tid, 'disconnect', repr(e)))
+                        mark[3] = len(S.log)
                     else:
                         pk = serverbound.play.ChatPacket(message='m%d' % arg + 'x' * (arg % 7))
                         pk.pid = arg
@@ -211,7 +216,7 @@ def scenario(C, E, progs, choose, transport='plain', capw=300, capr=50, fine=Fal
         queue_left = [x.pid for x in collections.deque.__iter__(conn._outgoing_packet_queue)]
         return dict(S=S, log=S.log, ran=S.ran, wire=isock.wire, closed=isock.closed, queue=queue_left,
                     attached=attached and via_connect, errors=S.errors, caller_errors=caller_errors, secret=secret, stuck=stuck,
-                    nt_slot=conn.networking_thread)
+                    nt_slot=conn.networking_thread, dmarks=dmarks)
     finally:
         C.RLock, C.deque, C.select, C.Connection._write_packet = saved
 
@@ -277,26 +282,30 @@ def oracle(ctx, progs, r, transport, label, extra_issued=(), stream_only=False):
                         dcount += 1
                 if not any(k == 'd' and not arg for k, arg in ops):
                     continue
-                # locate this thread's disconnect(False) acquisitions: an `acq` of tid followed (before its rel) by chk/sti/shut
-                i = 0
-                while i < len(log) and not bad:
-                    if log[i][0] == tid and log[i][1] == 'acq':
-                        j = i + 1
-                        kinds = []
-                        while j < len(log) and not (log[j][0] == tid and log[j][1] == 'rel'):
-                            if log[j][0] == tid:
-                                kinds.append(log[j][1])
-                            j += 1
-                        if 'chk' in kinds and ('sti' in kinds or 'shut' in kinds or 'cls' in kinds):
-                            queued_before = [e[2] for e in log[:i] if e[1] == 'app']
-                            popped_before = [e[2] for e in log[:i] if e[1] == 'pop']
-                            pending = [p for p in queued_before if p not in popped_before]
-                            sent_by_then = [e[2] for e in log[:j] if e[1] == 'snd' and e[3] == 1]
-                            missing = [p for p in pending if p not in sent_by_then]
-                            if missing:
-                                bad = 'graceful disconnect of thread %d returned without sending queued %r' % (tid, missing)
-                        i = j
-                    i += 1
+                # this thread's disconnect(immediate=False) calls (positions in the log recorded by the harness thread itself):
+                # if the call is the one that closes the socket (shut/cls inside its lock section), everything queued and not yet
+                # popped when it took the lock has been sent when it releases the lock
+                for mtid, mimm, lo, hi in r.get('dmarks', []):
+                    if mtid != tid or mimm or bad:
+                        continue
+                    hi = len(log) if hi is None else hi
+                    i = next((x for x in range(lo, hi) if log[x][0] == tid and log[x][1] == 'acq'), None)
+                    if i is None:
+                        continue
+                    j = i + 1
+                    kinds = []
+                    while j < len(log) and not (log[j][0] == tid and log[j][1] == 'rel'):
+                        if log[j][0] == tid:
+                            kinds.append(log[j][1])
+                        j += 1
+                    if 'shut' in kinds or 'cls' in kinds:          # it had a socket to close
+                        queued_before = [e[2] for e in log[:i] if e[1] == 'app']
+                        popped_before = [e[2] for e in log[:i] if e[1] == 'pop']
+                        pending = [p for p in queued_before if p not in popped_before]
+                        sent_by_then = [e[2] for e in log[:j] if e[1] == 'snd' and e[3] == 1]
+                        missing = [p for p in pending if p not in sent_by_then]
+                        if missing:
+                            bad = 'graceful disconnect of thread %d returned without sending queued %r' % (tid, missing)
     if r['caller_errors']:
         bad = bad or 'an API call raised to its caller: %r' % (r['caller_errors'][:2],)
     if r.get('stuck'):
@@ -408,6 +417,23 @@ def run(ctx):
         if r['errors'] and not failed:
             ctx.violation('%s: a thread raised: %r' % (label, r['errors'][:2]), {'programs': prog_str(progs), 'schedule': r['ran']},
                           key={'programs': prog_str(progs), 'schedule': r['ran'], 'kind': 'thread-error'})
+    # ---- back-pressure at the moment of a graceful disconnect: the peer has not drained its receive window, so the socket
+    # is momentarily not writable (a blocking send simply waits); everything queued must still be sent before the close
+    for i in range(ctx.scale(30, 300)):
+        progs = [[('q', k) for k in range(1, rng.randint(2, 6))] + [('d', 0)]]
+        if i % 2:
+            progs.append([('q', 10 + k) for k in range(rng.randint(1, 3))])
+        bias = rng.random()
+
+        def choose(en, n, bias=bias):
+            users = [x for x in en if x != 0]
+            if users and rng.random() < 0.5 + bias / 2:
+                return rng.choice(users)
+            return rng.choice(en)
+        r = scenario(C, E, progs, choose, ['plain', 'compressed', 'encrypted'][i % 3], stall_w=rng.randint(1, 4))
+        ctx.case(('back-pressure', prog_str(progs), tuple(r['ran'])), sample={'programs': prog_str(progs), 'kind': 'back-pressure'})
+        ctx.count('back_pressure_walks')
+        oracle(ctx, progs, r, ['plain', 'compressed', 'encrypted'][i % 3], 'graceful disconnect while the socket is momentarily not writable')
     # ---- compression switched on in mid-stream (the reactor has read Set Compression) while packets are
     # queued / being forced: every frame whose first send comes after the switch must be in the compressed
     # format, every earlier one in the plain format -- the peer parses strictly by that rule
